@@ -18,7 +18,10 @@ DS = "distributed_shampoo/distributed_shampoo.py"
 UTILS = "distributed_shampoo/utils/shampoo_utils.py"
 TYPES = "distributed_shampoo/shampoo_types.py"
 PLIST = "distributed_shampoo/utils/shampoo_preconditioner_list.py"
+CKPT = "distributed_shampoo/utils/shampoo_checkpoint_utils.py"
 HYPER = "From Shampoo Require Import Hyper.\n"
+TREES = "From Shampoo Require Import StateDict.\nFrom ShampooGen Require Import PyTree.\n"   # the TYPES key / lf / tree + references into dicts
+JSON = {"json.dumps": ("dumps", ["list key"], "fkey", None), "json.loads": ("loads", ["fkey"], "list key", "ValueError")}
 OPTIM = "From Shampoo Require Import Optimizer.\n"        # for the sum type root_override (OvInt | OvList)
 
 G_EPS, G_B2 = ("self.epsilon", "epsilon", "pynum"), ("self.beta2", "beta2", "pynum")
@@ -61,6 +64,17 @@ SPECS = {
         Target("distributed_shampoo/utils/shampoo_fsdp_distributor.py", **{**SPLIT, "qualname": "FSDPDistributor._split_tensor_block_recovery"}, prefix="fsdp_"),
         Target("distributed_shampoo/utils/shampoo_hsdp_distributor.py", **{**SPLIT, "qualname": "HSDPDistributor._split_tensor_block_recovery"}, prefix="hsdp_"),
     ]),
+    "C09": ("GenC09", "EquivC09.v", "From Coq Require Import String.\n", [
+        Target(DS, "DistributedShampoo._construct_param_group_key", coq_name="construct_param_group_key", params=["param_to_key"],
+               types={"param_to_key": "dict (nat * string)"}, atoms=[("group[PARAMS]", "params", "list nat")]),
+    ]),
+    "C16": ("GenC16", "EquivC16.v", TREES, [
+        Target(CKPT, "flatten", foreign=JSON, fuel="tree_depth (Node input_dict)",
+               types={"input_dict": "dict (key * tree)", "parent_keys": "list key", "key": "key", "value": "tree",
+                      "flatten.return": "dict (fkey * lf)", "flatten_with_parent_keys.return": "dict (fkey * lf)", "parse_key_value.return": "dict (fkey * lf)"}),
+        Target(CKPT, "unflatten", foreign=JSON,
+               types={"flattened_dict": "dict (fkey * lf)", "unflatten.return": "dict (key * tree)", "dict[str, Any]": "dict (key * tree)"}),
+    ]),
     "C17": ("GenC17", "EquivC17.v", HYPER, [
         Target(DS, "DistributedShampoo.__init__", mode="prefix", coq_name="init_guards", stop_before="super().__init__(",
                params=["lr", "betas", "beta3", "epsilon", "momentum", "dampening", "weight_decay", "max_preconditioner_dim",
@@ -82,13 +96,28 @@ SPECS = {
 }
 
 
+# per property: extra prelude files (beside PyPrelude*.v) the generated module needs, text around the generated definitions
+EXTRA = {
+    "C16": dict(libs=("PyTree.v",),
+                preamble="Section Json.\nVariable fkey : Type.\nVariable fkey_eqb : fkey -> fkey -> bool.\n"
+                         "Variable dumps : list key -> fkey.          (* json.dumps on a list of str|int *)\n"
+                         "Variable loads : fkey -> option (list key).  (* json.loads; None = JSONDecodeError / not a list of str|int *)\n\n",
+                footer="End Json.\n"),
+}
+
+
 def generate(pid: str, repo=None):
     name, equiv, header, targets = SPECS[pid]
-    text, meta = py2coq.generate(repo or common.REPO, targets, header)
+    ex = EXTRA.get(pid, {})
+    text, meta = py2coq.generate(repo or common.REPO, targets, header, ex.get("preamble", ""), ex.get("footer", ""))
     return text, meta
+
+
+def libs(pid: str) -> tuple:
+    return EXTRA.get(pid, {}).get("libs", ())
 
 
 def run(ck) -> dict:
     """Translate the property's targets from the current source and check the committed equivalence theorems against the result."""
     name, equiv, _, _ = SPECS[ck.pid]
-    return ck.gen_equiv(name, lambda: generate(ck.pid), equiv)
+    return ck.gen_equiv(name, lambda: generate(ck.pid), equiv, extra_libs=libs(ck.pid))
